@@ -131,6 +131,65 @@ theorem handle_rx_gen (D : Int) (ops : GOps2) (hs : ops.session_handle_rx = genH
           h1, h2, h3, h4, pushD]
         exact h5
 
+theorem cfgT2_cfgS2 (c : Gen.MacTopFn.Configuration) : cfgT2 (cfgS2 c) = c := by cases c; rfl
+
+/-- `handle_rxc` (Class C, `ignore_mac = true`) of a device with a session, on a buffer the parser accepts -/
+theorem handle_rxc_gen (D : Int) (ops : GOps2) (hs : ops.session_handle_rx = genHandleRx D)
+    (cfg : Gen.MacTopFn.Configuration) (rs : RegionState) (eirp : Gen.MacTopFn.BoardEirp) (gs : Gen.SessionRx.Session)
+    (rx : Gen.SessionRx.RadioBuffer) (dl : List Gen.SessionRx.Downlink) (snr : Int) (rf : Gen.MacTopFn.RfConfig)
+    (e : Gen.SessionRx.EncryptedDataPayload)
+    (hparse : rx.as_mut_for_read.parse = some e) (hup : e.is_uplink = false)
+    (haddr : ¬ (e.as_bytes.length : Int) > rf.max_payload_len + 5 → e.fhdr.dev_addr = gs.devaddr)
+    (hw : TieA.Rx.SessWF gs) (hmax : 0 ≤ rf.max_payload_len ∧ rf.max_payload_len ≤ 255) (hwire : 0 ≤ e.fhdr.fcnt)
+    (hdec : ∀ f, Gen.SessionRx.next_fcnt_down gs.fcnt_down e.fhdr.fcnt = some f → e.validate_mic (nwkOf gs) f = true →
+      ∃ d, rx.as_mut_for_read.decrypt_in_place (some (nwkOf gs)) (some (appOf gs)) f = some d ∧ DecWF Stream d) :
+    (@Gen.MacTopFn.Mac.handle_rxc K2 ops D ⟨cfg, rs, eirp, .Joined gs⟩ rx dl snr rf).bind
+        (fun (r, g', _, dl') => (r.bind respM).map (fun m => (m, macM2 g', dl'.map dlOf)))
+      = (macHandleRx (macM2 ⟨cfg, rs, eirp, .Joined gs⟩) (.data (dataOf gs e (decOf gs rx e))) rf.max_payload_len.toNat snr true).toOption.bind
+          (fun (o, m') => o.map (fun o => (o.resp, m', pushD dl D o))) := by
+  have hf := handle_rx_full D gs rs (cfgS2 cfg) rx dl rf.max_payload_len snr true e hparse hup haddr hw hmax hwire hdec
+  rw [cfgOf_cfgS2] at hf
+  simp only [Gen.MacTopFn.Mac.handle_rxc, macHandleRx, macM2, stateM2, hs, genHandleRx]
+  cases hx : @Gen.SessionRx.Session.handle_rx RegionState genOps D gs rs (cfgS2 cfg) rx dl rf.max_payload_len snr true with
+  | none =>
+    rw [hx] at hf
+    cases hm : sessionHandleRx (TieA.Rx.sessOf gs) (cfgM cfg) rs (dataOf gs e (decOf gs rx e)) rf.max_payload_len.toNat snr true with
+    | error er => simp [hm, Except.toOption, bind, Except.bind]
+    | ok v => rw [hm] at hf; simp [Except.toOption] at hf
+  | some v =>
+    obtain ⟨r, s', reg', c', b', dl'⟩ := v
+    rw [hx] at hf
+    simp only [Option.bind_some] at hf
+    cases hm : sessionHandleRx (TieA.Rx.sessOf gs) (cfgM cfg) rs (dataOf gs e (decOf gs rx e)) rf.max_payload_len.toNat snr true with
+    | error er =>
+      rw [hm] at hf
+      cases hr : TieA.Rx.respOf r with
+      | none => simp [hm, hr, respM_respT2, Except.toOption, bind, Except.bind, pure, Except.pure]
+      | some m => rw [hr] at hf; simp [Except.toOption] at hf
+    | ok w =>
+      obtain ⟨o, s2, c2, reg2⟩ := w
+      rw [hm] at hf
+      cases hr : TieA.Rx.respOf r with
+      | none => rw [hr] at hf; simp [Except.toOption] at hf
+      | some m =>
+        rw [hr] at hf
+        simp [Except.toOption, expect] at hf
+        obtain ⟨h1, h2, h3, h4, h5⟩ := hf
+        simp [hm, hr, Except.toOption, bind, Except.bind, pure, Except.pure, macM2, stateM2, respM_respT2, cfgM_cfgT2,
+          h1, h2, h3, h4, pushD]
+        exact h5
+
+/-- a buffer the data-frame parser rejects, device with a session: `NoUpdate`, and `Mac`, buffer and queue are exactly
+what they were (the model: `RxView.garbage` → `noUpdate`, state unchanged) -/
+theorem handle_rx_unparsed_gen (D : Int) (ops : GOps2) (hs : ops.session_handle_rx = genHandleRx D)
+    (cfg : Gen.MacTopFn.Configuration) (rs : RegionState) (eirp : Gen.MacTopFn.BoardEirp) (gs : Gen.SessionRx.Session)
+    (rx : Gen.SessionRx.RadioBuffer) (dl : List Gen.SessionRx.Downlink) (snr : Int) (rf : Gen.MacTopFn.RfConfig)
+    (hparse : rx.as_mut_for_read.parse = none) :
+    @Gen.MacTopFn.Mac.handle_rx K2 ops D ⟨cfg, rs, eirp, .Joined gs⟩ rx dl snr rf
+      = some (.NoUpdate, ⟨cfg, rs, eirp, .Joined gs⟩, rx, dl) := by
+  have hu := @TieA.Rx.handle_rx_unparsed genOps D gs rs (cfgS2 cfg) rx dl rf.max_payload_len snr false hparse
+  simp [Gen.MacTopFn.Mac.handle_rx, hs, genHandleRx, hu, respT2, cfgT2_cfgS2]
+
 end TieA.MacTop.Rx
 
 namespace C07
@@ -157,6 +216,35 @@ theorem tieA_mac_handle_rx (D : Int) (ops : GOps2) (hs : ops.session_handle_rx =
       = (macHandleRx (macM2 ⟨cfg, rs, eirp, .Joined gs⟩) (.data (dataOf gs e (decOf gs rx e))) rf.max_payload_len.toNat snr false).toOption.bind
           (fun (o, m') => o.map (fun o => (o.resp, m', pushD dl D o))) :=
   handle_rx_gen D ops hs cfg rs eirp gs rx dl snr rf e hparse hup haddr hw hmax hwire hdec
+
+/-- **Tie A.**  `Mac::handle_rxc` (Class C) of a device with a session on a buffer the parser accepts = the model's
+`macHandleRx` with `classC = true`, the session's method being the REGENERATED `Session::handle_rx` (`ignore_mac = true`):
+no simulation hypothesis. -/
+theorem tieA_mac_handle_rxc (D : Int) (ops : GOps2) (hs : ops.session_handle_rx = genHandleRx D)
+    (cfg : Gen.MacTopFn.Configuration) (rs : RegionState) (eirp : Gen.MacTopFn.BoardEirp) (gs : Gen.SessionRx.Session)
+    (rx : Gen.SessionRx.RadioBuffer) (dl : List Gen.SessionRx.Downlink) (snr : Int) (rf : Gen.MacTopFn.RfConfig)
+    (e : Gen.SessionRx.EncryptedDataPayload)
+    (hparse : rx.as_mut_for_read.parse = some e) (hup : e.is_uplink = false)
+    (haddr : ¬ (e.as_bytes.length : Int) > rf.max_payload_len + 5 → e.fhdr.dev_addr = gs.devaddr)
+    (hw : SessWF gs) (hmax : 0 ≤ rf.max_payload_len ∧ rf.max_payload_len ≤ 255) (hwire : 0 ≤ e.fhdr.fcnt)
+    (hdec : ∀ f, Gen.SessionRx.next_fcnt_down gs.fcnt_down e.fhdr.fcnt = some f → e.validate_mic (nwkOf gs) f = true →
+      ∃ d, rx.as_mut_for_read.decrypt_in_place (some (nwkOf gs)) (some (appOf gs)) f = some d ∧ DecWF Stream d) :
+    (@Gen.MacTopFn.Mac.handle_rxc K2 ops D ⟨cfg, rs, eirp, .Joined gs⟩ rx dl snr rf).bind
+        (fun (r, g', _, dl') => (r.bind respM).map (fun m => (m, macM2 g', dl'.map dlOf)))
+      = (macHandleRx (macM2 ⟨cfg, rs, eirp, .Joined gs⟩) (.data (dataOf gs e (decOf gs rx e))) rf.max_payload_len.toNat snr true).toOption.bind
+          (fun (o, m') => o.map (fun o => (o.resp, m', pushD dl D o))) :=
+  handle_rxc_gen D ops hs cfg rs eirp gs rx dl snr rf e hparse hup haddr hw hmax hwire hdec
+
+/-- **Tie A.**  `Mac::handle_rx` of a device with a session on a buffer the data-frame parser REJECTS: `NoUpdate`, and
+`Mac`, buffer and downlink queue are exactly what they were (C07: a frame that is not accepted changes nothing) — with
+the regenerated `Session::handle_rx` inside, no hypothesis but `parse = none`. -/
+theorem tieA_mac_handle_rx_unparsed (D : Int) (ops : GOps2) (hs : ops.session_handle_rx = genHandleRx D)
+    (cfg : Gen.MacTopFn.Configuration) (rs : RegionState) (eirp : Gen.MacTopFn.BoardEirp) (gs : Gen.SessionRx.Session)
+    (rx : Gen.SessionRx.RadioBuffer) (dl : List Gen.SessionRx.Downlink) (snr : Int) (rf : Gen.MacTopFn.RfConfig)
+    (hparse : rx.as_mut_for_read.parse = none) :
+    @Gen.MacTopFn.Mac.handle_rx K2 ops D ⟨cfg, rs, eirp, .Joined gs⟩ rx dl snr rf
+      = some (.NoUpdate, ⟨cfg, rs, eirp, .Joined gs⟩, rx, dl) :=
+  handle_rx_unparsed_gen D ops hs cfg rs eirp gs rx dl snr rf hparse
 
 end C07
 
@@ -206,3 +294,5 @@ example :
 end TieA.MacTop.Rx.Example
 
 #print axioms C07.tieA_mac_handle_rx
+#print axioms C07.tieA_mac_handle_rxc
+#print axioms C07.tieA_mac_handle_rx_unparsed
